@@ -22,14 +22,96 @@ Definition C09_corr (v : view) (outs : list (nat * nat * list N)) : bool :=
     | _ => true
     end) outs.
 
-(* a case: the table's view with all its renders, and - when the harness could
-   write the build as a history of the table machine's operations - the
-   pipeline case for the same table (Run/PipeRun.v) *)
-Definition c09case := (view * list (nat * nat * list N) * option pipe_case)%type.
+(* ---- tables that carry property callbacks of the application.
+   The build is also written as a history of the callback machine
+   (Model/Callbacks.v; registrations interleaved with the building calls at the
+   places where the harness made them).  A callback is an opaque label there:
+   the machine can do nothing with a callback but invoke it, whatever Go value
+   (of whatever dynamic type, comparable or not) the application registered.
+   Each test callback logs label*8 + (kind of object it received) on every
+   invocation; the harness ships
+     - per registration made, whether RegisterPropertyCallback refused it,
+     - the add-time log of the build,
+     - the distinct render-time logs of the judged renders, each with the
+       outcome class of a render that produced it.
+   A render makes exactly one pass, so its log is the model's pass; a render
+   that returned an error may also have refused before the pass (no log). *)
+From Tab Require Model.Callbacks Spec.CbTrace.
+
+Definition cbo_owner (k a b : nat) : CbTypes.owner :=
+  match k with 0 => CbTypes.OTable | 1 => CbTypes.OColumn a | 2 => CbTypes.ORow a | _ => CbTypes.OCell a b end.
+Definition cbo_time (n : nat) : CbTypes.ctime :=
+  match n with 0 => CbTypes.TAdd | 1 => CbTypes.TPre | 2 => CbTypes.TRender | _ => CbTypes.TPost end.
+Definition cbo_target (n : nat) : CbTypes.target :=
+  match n with 0 => CbTypes.GItself | 1 => CbTypes.GCell | _ => CbTypes.GRow end.
+Definition cbo_new : CbTypes.op := CbTypes.ONewRow.
+Definition cbo_add (r : nat) : CbTypes.op := CbTypes.ORowAdd r.
+Definition cbo_addrow (r : nat) : CbTypes.op := CbTypes.OAddRow r.
+Definition cbo_append : CbTypes.op := CbTypes.OAppendNewRow.
+Definition cbo_items (n : nat) : CbTypes.op := CbTypes.OAddRowItems n.
+Definition cbo_sep : CbTypes.op := CbTypes.OAddSeparator.
+Definition cbo_headers (n : nat) : CbTypes.op := CbTypes.OAddHeaders n.
+Definition cbo_reg (k a b tm g cb : nat) : CbTypes.op :=
+  CbTypes.ORegister (cbo_owner k a b) (cbo_time tm) (cbo_target g) cb.
+
+Definition cb_enc (e : CbTypes.event) : nat :=
+  fst e * 8 + match snd e with
+              | CbTypes.XTable => 0 | CbTypes.XCol _ => 1 | CbTypes.XRow _ => 2
+              | CbTypes.XCell _ _ => 3 | CbTypes.XUnknown => 4
+              end.
+
+Fixpoint nats_eqb (a b : list nat) : bool :=
+  match a, b with
+  | [], [] => true
+  | x :: a', y :: b' => (x =? y) && nats_eqb a' b'
+  | _, _ => false
+  end.
+Fixpoint bools_eqb (a b : list bool) : bool :=
+  match a, b with
+  | [], [] => true
+  | x :: a', y :: b' => Bool.eqb x y && bools_eqb a' b'
+  | _, _ => false
+  end.
+
+(* history, refusals, add-time log, (outcome class, render-time log) of the judged renders *)
+Definition cb_case := (list CbTypes.op * list bool * list nat * list (nat * list nat))%type.
+
+Definition cb_corr (c : cb_case) : bool :=
+  let '(h, refused, addlog, traces) := c in
+  CbTrace.wf_hist h &&
+  match Callbacks.run h 1 with
+  | Ok oc =>
+      bools_eqb (Callbacks.oc_regerr oc) refused
+      && nats_eqb (map cb_enc (Callbacks.oc_add oc)) addlog
+      && forallb (fun '(kind, tr) =>
+           match kind with
+           | 0 => nats_eqb tr (map cb_enc (Callbacks.oc_render oc))
+           | 1 => nats_eqb tr (map cb_enc (Callbacks.oc_render oc)) || match tr with [] => true | _ => false end
+           | _ => true      (* a render that panicked: the property oracle rejects it *)
+           end) traces
+  | _ => false
+  end.
+
+Definition cb_model (c : cb_case) :=
+  let '(h, _, _, _) := c in
+  (CbTrace.wf_hist h,
+   match Callbacks.run h 1 with
+   | Ok oc => Ok (Callbacks.oc_regerr oc, map cb_enc (Callbacks.oc_add oc), map cb_enc (Callbacks.oc_render oc))
+   | Err => Err
+   | Panic => Panic
+   end).
+
+(* a case: the table's view with all its renders; when the harness could
+   write the build as a history of the table machine's operations, the
+   pipeline case for the same table (Run/PipeRun.v); when the table carries
+   callbacks, the callback case *)
+Definition c09case := (view * list (nat * nat * list N) * option pipe_case * option cb_case)%type.
 
 Definition C09_case (c : c09case) : N :=
-  let '(v, outs, p) := c in
-  code (C09_corr v outs && match p with Some pc => pipe_corr pc | None => true end) (C09_ok outs).
+  let '(v, outs, p, cb) := c in
+  code (C09_corr v outs && match p with Some pc => pipe_corr pc | None => true end
+                        && match cb with Some cc => cb_corr cc | None => true end)
+       (C09_ok outs).
 
 Definition C09_model (c : c09case) :=
-  let '(v, outs, p) := c in (class_of (csv_render v), option_map pipe_model p).
+  let '(v, outs, p, cb) := c in (class_of (csv_render v), option_map pipe_model p, option_map cb_model cb).
